@@ -41,6 +41,9 @@ pub enum Act {
     HaveNext,
     Disconnect,
     Idle(u8),
+    /// the scheduler does not run this connection's task for the next n script steps (a task may be delayed
+    /// arbitrarily, e.g. while it is still connecting); everything sent to it meanwhile waits in its socket / channels
+    Stall(u8),
 }
 
 #[derive(Clone, Debug, Serialize, Deserialize)]
@@ -61,7 +64,7 @@ fn geo_strategy(tier: Tier) -> BoxedStrategy<Geometry> {
     (pl, any::<bool>(), any::<u64>())
         .prop_flat_map(|(pl, multi, seed)| {
             let nfiles = if multi { 1usize..=5 } else { 1usize..=1 };
-            let maxtotal = if pl >= 1000 { 6 * pl } else { 30 * pl };
+            let maxtotal = if pl >= 1000 { 6 * pl } else if pl <= 3 { 90 * pl } else { 30 * pl };
             let flen = prop_oneof![1 => Just(0usize), 3 => 1..=maxtotal / 2, 2 => 1..=std::cmp::max(1, pl / 2), 1 => Just(pl), 1 => Just(2 * pl)];
             (Just(pl), Just(multi), Just(seed), vec((flen, vec(0u8..3, 0..2)), nfiles))
         })
@@ -100,6 +103,7 @@ fn strategy(tier: Tier) -> BoxedStrategy<Case> {
         2 => Just(Act::HaveNext),
         1 => Just(Act::Disconnect),
         1 => (0u8..30).prop_map(Act::Idle),
+        1 => (1u8..60).prop_map(Act::Stall),
     ];
     (geo_strategy(tier), vec(peer, 1..=4), vec((any::<u16>(), act), 0..50), prop_oneof![Just(0u8), any::<u8>()], any::<u64>())
         .prop_map(|(geo, mut peers, script, cut_rate, seed)| {
@@ -274,7 +278,16 @@ pub fn check(c: &Case) -> Outcome {
             let mut disconnected_nonessential = false;
 
             // ---- scripted phase
+            let mut stalled: Vec<(usize, usize)> = vec![];
             for (who, act) in c.script.iter() {
+                // delayed tasks resume after their number of steps
+                for s in stalled.iter_mut() {
+                    s.1 = s.1.saturating_sub(1);
+                }
+                for (cn, _) in stalled.iter().filter(|s| s.1 == 0) {
+                    w.frozen.remove(cn);
+                }
+                stalled.retain(|s| s.1 > 0);
                 if w.fatal().is_some() || all_have(w) {
                     break;
                 }
@@ -333,6 +346,11 @@ pub fn check(c: &Case) -> Outcome {
                     Act::Idle(s) => {
                         w.advance_by(Duration::from_secs(*s as u64)).await;
                     }
+                    Act::Stall(nsteps) => {
+                        w.frozen.insert(conn);
+                        stalled.push((conn, *nsteps as usize));
+                        classes.push("task-delayed-by-the-scheduler");
+                    }
                 }
                 net.observe(w).await;
                 // due unchokes
@@ -351,6 +369,7 @@ pub fn check(c: &Case) -> Outcome {
                 net.observe(w).await;
             }
 
+            w.frozen.clear();
             // ---- autopilot: every surviving honest peer behaves: announces the rest, unchokes when due, serves everything;
             // an essential peer the client dropped is handed out again (as the tracker would)
             let mut rounds = 0usize;
@@ -550,7 +569,7 @@ pub fn swarm_sub() -> Sub {
         cases: |t| t.pick(8_000, 100_000),
         run: |ctx| run_proptest(ctx, "swarm", strategy(ctx.tier), check),
         replay: |v| replay_case::<Case>(v, check),
-        min_class: &[(">=2-peers", 0.3747), ("non-essential-peer-disconnected", 0.0767), ("stream-cut-inside-a-message", 0.228), ("cut-inside-length-prefix", 0.2), ("multi-file", 0.258), ("piece-announced-by-have", 0.15), ("unknown-id-message", 0.15), ("peer-interested-in-client", 0.2)],
+        min_class: &[(">=2-peers", 0.3747), ("non-essential-peer-disconnected", 0.0767), ("stream-cut-inside-a-message", 0.228), ("cut-inside-length-prefix", 0.2), ("multi-file", 0.258), ("piece-announced-by-have", 0.15), ("unknown-id-message", 0.15), ("peer-interested-in-client", 0.2), ("task-delayed-by-the-scheduler", 0.1)],
     }
 }
 
